@@ -251,6 +251,21 @@ def run(ctx):
                     why = why or None
                 r.check(why is not None, "%s/%s" % (tag, kind), b.loc(line), "%s %s: %s" % (kind, desc[:60], why), "potential panic (%s %s) in a notification handler, not in the allow-list" % (kind, desc[:80]))
 
+    with ctx.rule("C08.R2b", "T1", "callbacks that receive the map see it whole: survivors of a Take/Drop are restored before the removals are reported", floor=2) as r:
+        oe = ctx.saw(dl.fn(suffix="task::map::on_event::{closure#0}"))
+        for var in ("Take", "Drop"):
+            in_arm = lambda c: any(d == "disc(event)" and l == var for d, l, _ in dom_guards(oe, c.block))
+            taken = [c for c in oe.calls if c.name == "take" and "core::mem" in c.defpath and in_arm(c)]
+            ins = [c for c in oe.calls if c.name == "insert" and c.args and describe_operand(oe, c.args[0]) == "map" and in_arm(c)]
+            cbs = [c for c in oe.calls if c.via_name in ("on_remove", "on_update") and in_arm(c) and any(describe_operand(oe, a) == "map" for a in c.args)]
+            if not taken or not ins or not cbs:
+                raise AnchorMissing("client on_event %s arm: mem::take %d / re-insert %d / callbacks %d" % (var, len(taken), len(ins), len(cbs)))
+            for c in cbs:
+                late = [i for i in ins if oe.reaches(c.block, {i.block})]
+                r.check(not late, "client-map/%s/callbacks-after-survivors-restored" % var, c.loc(), "on_remove runs after the surviving entries were put back into the map it is given",
+                        "on_remove is called while the map is still emptied by mem::take (survivors are re-inserted at line %d afterwards): the handler is given a map without the remaining entries" % late[0].line if late else "")
+
+
     with ctx.rule("C08.R6", "T5", "configuration flags reach the notification handlers in the right position at every call site", floor=4) as r:
         # Several handlers take adjacent flags of the same type (events_when_not_synced, terminate_on_unlinked, dispatch ...).
         # At every call of a crate-local function, a named argument whose name is the name of a *different* parameter of the callee
